@@ -45,6 +45,8 @@ def gen_raw(rng, known, unknown, w_ref=0.25, w_unknown=0.0, depth=0):
     if rr < 0.75:
       return {'t': [gen_raw(rng, known, unknown, w_ref, w_unknown, depth + 1) for _ in range(n)]}
     keys = rng.sample([1, 2, {'s': 'k'}, {'s': 'j'}], min(n, 2))
+    if w_ref > 0 and rng.random() < 0.25:
+      keys[0] = gen_raw(rng, known, unknown, 1.0, w_unknown, 2)   # a reference (known or not) as a key
     from encode import canon
     keys = sorted(keys, key=canon)
     return {'d': [[kk, gen_raw(rng, known, unknown, w_ref, w_unknown, depth + 1)] for kk in keys]}
